@@ -70,6 +70,11 @@ theorem tie_try_assigns : tryAssigns =
     ["ctx, cancel := context.WithCancel(ctx)", "errchan := make(chan error, len(conn.remotes))",
      "all404 := true", "all404 = all404 && errStatus(err) == http.StatusNotFound"] := rfl
 
+/-- federation.Conn holds the cluster configuration and its backends and nothing else: no cache,
+no memory of earlier answers (Model: `collectionGetSeq` = every request answered like the first) -/
+theorem tie_conn_fields : connFields =
+    ["cluster *arvados.Cluster", "local backend", "remotes map[string]backend"] := rfl
+
 /-- chooseBackend (Model: `chooseBackend`) and errStatus (Model: `cancelledStatus` = 500 for
 errors without an HTTP status). -/
 theorem tie_chooseBackend : chooseBackendConds =
